@@ -251,6 +251,12 @@ def check_wait_sites(ctx, P):
     else:
         o.ok("%d wait sites: %s" % (len(found), ", ".join(sorted(found))))
     missing = sorted(set(WAIT) - set(found) - ({"fiber_multi_channel_internal_wait"} if not P.has_fn("fiber_multi_channel_internal_wait") else set()))
+    # a marker-mechanism wait may delegate "WAITING + set_wait slot + yield" to fiber_manager_set_and_wait (same three
+    # actions, checked there as a mechanism-1 site): it is then judged on its publication order alone
+    delegated = [n for n in missing if WAIT[n] == 3 and P.has_fn(n) and P.fn(n).calls("fiber_manager_set_and_wait")]
+    for n in delegated:
+        check_marker_site_delegated(ctx, P, P.fn(n))
+    missing = [n for n in missing if n not in delegated]
     if missing:
         raise AnalysisBroken("wait site(s) vanished: %s" % missing)
 
@@ -384,6 +390,32 @@ def check_wait_sites(ctx, P):
             o.fail(bad[0], site=bad[1], witness=bad[2], construct=helper + " without lock")
         else:
             o.ok("%d call sites under the lock" % len(cs))
+
+
+def check_marker_site_delegated(ctx, P, fn):
+    o = ctx.ob("wait.3", fn, MECH_REQ[3] + " (here: the last three through fiber_manager_set_and_wait(manager, &scratch, READY_TO_WAKE))", MECH_WHY[3])
+    bad = None
+    pubs = [x.node for x in fn.stores() if x.aop == "cas" and is_field(fn.target_key(x.target), "fiber_signal", "waiter")] + fn.calls("compare_and_swap2")
+    if not pubs:
+        raise AnalysisBroken("%s: publishing CAS not found" % fn.name)
+    clr = [x.node for x in fn.stores_to("fiber", "scratch") if x.value is not None and strip(x.value).cv == 0]
+    for p in pubs:
+        w = fn.dominated_by(p, nodeset(clr))
+        if w is not None:
+            bad = bad or ("the CAS that publishes the fiber is reachable without scratch having been cleared: a stale READY_TO_WAKE value left by an "
+                          "earlier wake-up (the fd-close wake stores -1 there) lets a raiser schedule the fiber before it has switched away", p, w, "publish before scratch clear")
+    pubp = nodeset(pubs)
+    for c in fn.calls("fiber_manager_set_and_wait"):
+        a = fn.args(c)
+        if not mentions_field(fn.key(a[1], True), "fiber", "scratch") or strip(a[2]).cv != -1:
+            bad = bad or ("the delegated sleep does not publish READY_TO_WAKE into the fiber's scratch: `%s`" % c.text, c, None, "delegated marker arguments")
+        w = fn.guarded(c, lambda leaf, pol: pubp(through_local(fn, leaf)) and pol is True)
+        if w is not None:
+            bad = bad or ("the fiber goes to sleep without having won the publishing CAS", c, w, "sleep without CAS success")
+    if bad:
+        o.fail(bad[0], site=bad[1], witness=bad[2], construct=bad[3])
+    else:
+        o.ok("publication order holds; sleep delegated to set_and_wait")
 
 
 MECH_REQ = {
